@@ -130,8 +130,18 @@ func (fs LocalFileSystem) ReadDir(ctx context.Context, name string, recursive bo
 		return nil, err
 	}
 
+	// Walk doesn't follow symbolic links, not even the one it is started on:
+	// when the name addresses a directory through a link (like Stat reports
+	// it), walk that directory
+	walkRoot := path
+	if fi, err := os.Lstat(path); err == nil && fi.Mode()&os.ModeSymlink != 0 {
+		if target, err := os.Stat(path); err == nil && target.IsDir() {
+			walkRoot = path + string(filepath.Separator)
+		}
+	}
+
 	var l []FileInfo
-	err = filepath.Walk(path, func(p string, fi os.FileInfo, err error) error {
+	err = filepath.Walk(walkRoot, func(p string, fi os.FileInfo, err error) error {
 		if err != nil {
 			return err
 		}
@@ -151,7 +161,7 @@ func (fs LocalFileSystem) ReadDir(ctx context.Context, name string, recursive bo
 
 		l = append(l, *fileInfoFromOS(href, fi))
 
-		if !recursive && fi.IsDir() && path != p {
+		if !recursive && fi.IsDir() && walkRoot != p {
 			return filepath.SkipDir
 		}
 		return nil
